@@ -57,6 +57,7 @@ type Contract struct {
 	Invariants []Clause // iterator invariant of a callback: required at entry, ensured at exit, and used by 'iterates' callers
 	Preserves []Clause // 'preserves E': E == old(E) after every call (reflexive and transitive, so also across an iteration)
 	ImplParams      int  // with 'implementations N': the number of parameters (receiver included) an implementing method must have
+	WritesArg       []int // 'writesarg N': the function stores into the variable argument N points to (an interface wrapping a pointer, or a pointer)
 	Allocates       bool // the function may allocate objects reachable from its results
 	After           map[string][]Clause // 'after CALLEE assume E': an assumption about what a callee returned (listed as unchecked)
 	Implementations bool // interface method contract that also stands for every implementing method without a contract of its own
@@ -394,6 +395,15 @@ func (cs *ContractSet) ParseContractText(file, pkgPath, pkgName, text string) {
 			}
 		case "allocates":
 			if cur != nil {
+				cur.Allocates = true
+			}
+		case "writesarg":
+			if cur != nil {
+				for _, f := range strings.Fields(rest) {
+					if n, err := strconv.Atoi(f); err == nil {
+						cur.WritesArg = append(cur.WritesArg, n)
+					}
+				}
 				cur.Allocates = true
 			}
 		case "implementations":
